@@ -86,6 +86,10 @@ BASELINES = {
     "hourly_noisy": {"family": "hourly", "profile": "hourly_thresholds", "ghi": False, "tz": "America/Chicago", "start_day": 0, "n": 365, "noise_seed": 8,
                      "usage": {"base": 20.0, "hs": 1.2, "hb": 52.0, "cs": 0.8, "cb": 68.0}, "noise": 0.6, "weekend_shift": 0.0, "season_shift": 0.0,
                      "south": False, "electric": True},
+    # a baseline that does not cover every month/weekday combination (Jan 1 - Nov 16); its reporting pool starts the day after
+    "hourly_partial": {"family": "hourly", "profile": "hourly_default", "ghi": False, "tz": "America/Chicago", "start_day": 0, "n": 320, "noise_seed": 12,
+                       "usage": {"base": 20.0, "hs": 1.2, "hb": 52.0, "cs": 0.8, "cb": 68.0}, "noise": 0.05, "weekend_shift": 0.0, "season_shift": 0.0,
+                       "south": False, "electric": True},
     "caltrack": {"family": "caltrack", "profile": "caltrack", "tz": "America/Chicago", "start_day": 0, "n": 150, "noise_seed": 9,
                  "usage": {"base": 20.0, "hs": 1.2, "hb": 52.0, "cs": 0.8, "cb": 68.0}, "noise": 0.05, "weekend_shift": 0.0, "season_shift": 0.0,
                  "south": False, "electric": True},
@@ -111,7 +115,7 @@ def run_history(steps, family, rec, case=None):
             if i == len(SPANS):
                 d = zoo.build_baseline(b)
             else:
-                r = {"start_day": b["start_day"] + 365 + 11 * i, "n": SPANS[i] if fam != "billing" else max(SPANS[i], 35), "noise_seed": 100 + i,
+                r = {"start_day": b["start_day"] + (365 if b["n"] >= 365 or fam == "caltrack" else b["n"]) + 11 * i, "n": SPANS[i] if fam != "billing" else max(SPANS[i], 35), "noise_seed": 100 + i,
                      "observed": observed, "T_shift": 0.0, "T_scale": 1.0}
                 fr = zoo.reporting_frame(b, r)
                 if ghi_extra and fam == "hourly":
@@ -282,6 +286,8 @@ def ctor_cases(draw):
     klass = draw(st.sampled_from(["daily", "billing", "hourly", "caltrack", "daily_fit", "hourly_fit"]))
     return {"kind": "ctor", "klass": klass, "entry": draw(st.sampled_from(["frame", "from_series"])), "baseline": draw(st.booleans()),
             "tz": draw(st.sampled_from(["America/Chicago", "UTC", "Europe/London"])), "n": draw(st.integers(40, 120)),
+            # from_series inputs: Series, or one-column frames (already named, or with other names); the feed may live in another zone
+            "series_form": draw(st.sampled_from(["series", "frame_named", "frame_other"])), "feed_tz": draw(st.sampled_from([None, "UTC", "Asia/Tokyo"])),
             "seed": draw(st.integers(0, 2 ** 20)), "nan": draw(st.lists(st.tuples(st.integers(0, 119), st.integers(0, 1)), max_size=5)),
             "zeros": draw(st.lists(st.integers(0, 119), max_size=3)), "electric": draw(st.booleans()), "observed": draw(st.booleans()),
             "noise": draw(st.sampled_from([0.05, 3.0]))}
@@ -325,18 +331,28 @@ def judge_ctor(c, rec):
             if "observed" not in df:
                 df["observed"] = 1.0
             meter, temp = df["observed"].copy(), df["temperature"].copy()
-            bm, bt = series_state(meter), series_state(temp)
+            if c.get("feed_tz"):
+                temp = temp.tz_convert(c["feed_tz"])
+            form = c.get("series_form", "series")
+            if form == "frame_named":
+                meter, temp = meter.to_frame("observed"), temp.to_frame("temperature")
+            elif form == "frame_other":
+                meter, temp = meter.to_frame("value"), temp.to_frame("tempF")
+            st_of = frame_state if form != "series" else series_state
+            bm, bt = st_of(meter), st_of(temp)
             try:
                 data = Cls.from_series(meter, temp, is_electricity_data=c["electric"])
             except Exception as e:
                 rec.note("ctor-raises:" + type(e).__name__)
                 rec.case(c, False, cls)
                 return
-            am, at = series_state(meter), series_state(temp)
+            am, at = st_of(meter), st_of(temp)
             for name, x, y in (("meter", bm, am), ("temperature", bt, at)):
                 if x != y:
-                    what = "index.freq" if x[4] != y[4] else ("name" if x[-1] != y[-1] else "values")
-                    rec.violation("%s/caller-series-modified/%s/%s" % (K, name, what), c, "the caller's %s Series changed (%s)" % (name, what))
+                    what = ("index.freq" if x[4] != y[4] else "index-timezone" if x[3] != y[3] else "columns" if x[0] != y[0] else
+                            "name" if (form == "series" and x[-1] != y[-1]) else "values")
+                    rec.violation("%s/caller-series-modified/%s/%s" % (K, name, what), c, "the caller's %s %s changed (%s)" % (
+                        name, "Series" if form == "series" else "DataFrame", what))
         if klass.endswith("_fit"):
             st0 = data_state(data)
             m = em.DailyModel(model="legacy") if fam == "daily" else em.HourlyModel(settings={"seed": 1, "cvrmse_threshold": 0.01, "pnrmse_threshold": 0.01})
@@ -368,7 +384,7 @@ def judge(c, rec):
 def shards(tier, seed):
     q = tier == "quick"
     out = []
-    for fam, k in (("daily", 3), ("billing", 2), ("hourly", 4), ("hourly_noisy", 2)):
+    for fam, k in (("daily", 3), ("billing", 2), ("hourly", 3), ("hourly_noisy", 1), ("hourly_partial", 2)):
         for i in range(k):
             out.append({"sub": "history", "family": fam, "n": 4 if q else 50, "steps": 7 if q else 25, "seed": mix(seed, ID, fam, i)})
     out.append({"sub": "history", "family": "caltrack", "n": 2 if q else 10, "steps": 5 if q else 12, "seed": mix(seed, ID, "caltrack")})
